@@ -302,3 +302,99 @@ def dedup(recs):
 
 def rng_for(name):
     return random.Random("%d/%s" % (core.seed(), name))
+
+
+# ------------------------------------------------------------------ G3 (C11)
+
+U64 = (1 << 64) - 1
+
+
+def g_moderate(F, rng, tier):
+    """(w, q, trunc) cases for the moderate stage"""
+    out = []
+    q = tier == "quick"
+
+    def add(w, qq, tr, tag):
+        if 0 <= w <= U64:
+            out.append({"fmt": F.name, "w": core.limbs(w), "q": qq, "trunc": tr, "tag": tag})
+
+    fields = list(range(0, F.emaxfield))
+    if q:
+        keep = {0, 1, 2, F.emaxfield - 1, F.emaxfield - 2, F.bias}
+        fields = sorted(keep | set(rng.sample(fields, 120 if F.name == "f64" else 80)))
+    for ef in fields:
+        for fr in rng.sample(sig_patterns(F, rng, 2), 2 if q else 6):
+            bits = (ef << F.mbits) | fr
+            M, k = F.midpoint(bits)
+            ds, e10 = exact_decimal(M, k)
+            n = len(ds)
+            for nd in (19, 20, 18, 17) if not q else (19, rng.choice([17, 18, 20])):
+                if n >= nd:
+                    w = int(ds[:nd])
+                    qq = e10 + n - nd
+                    exact = n == nd
+                    for dw in (0, 1, -1):
+                        add(w + dw, qq, False, "G3:mid")
+                        add(w + dw, qq, True, "G3:mid-trunc")
+                    if exact and nd < 19:
+                        add(w * 10, qq - 1, False, "G3:mid-exact")
+                else:
+                    # short expansion: pad with zeros (exact tie representable in u64)
+                    w = int(ds) * 10 ** (nd - n)
+                    if w <= U64:
+                        for dw in (0, 1, -1):
+                            add(w + dw, e10 - (nd - n), False, "G3:tie")
+                            add(w + dw, e10 - (nd - n), True, "G3:tie-trunc")
+            # the float itself
+            m, e = F.decode(bits)
+            if m:
+                ds2, e2 = exact_decimal(m, e)
+                if len(ds2) <= 19:
+                    add(int(ds2), e2, False, "G3:float")
+                    add(int(ds2), e2, True, "G3:float-trunc")
+    ws = [1, 2, 3, 5, 7, 9, 10, U64, U64 - 1, 1 << 63, (1 << 63) - 1, (1 << 63) + 1, 10 ** 19, 10 ** 19 - 1,
+          (1 << F.p) - 1, 1 << F.p, (1 << F.p) + 1, (1 << (F.p + 1)) + 1, 1 << 32, (1 << 32) - 1]
+    ws += [10 ** k for k in range(1, 20)] + [10 ** k - 1 for k in range(1, 20)]
+    ws += [(1 << k) - 1 for k in range(2, 64, 7)] + [1 << k for k in range(2, 64, 7)]
+    qs = [F.p10_lo - 1, F.p10_lo, F.p10_lo + 1, F.p10_hi - 1, F.p10_hi, F.p10_hi + 1, -351, -350, -349, 309, 310,
+          319, 320, 0xfff, 0x1000, -0xfff, -0x1000, -0x1001, I32MIN, I32MAX, 0, 1, -1, F.tie_lo - 1, F.tie_lo,
+          F.tie_hi, F.tie_hi + 1, -27, -28, 55, 56, F.fast_exp, -F.fast_exp]
+    for w in ws:
+        for qq in (qs if not q else rng.sample(qs, 10)):
+            add(w, qq, False, "G3:special")
+            add(w, qq, True, "G3:special-trunc")
+    add(0, 0, True, "G3:zero")
+    add(0, 5, False, "G3:zero")
+    # witnesses of the listed findings / repaired defects stay in every corpus (regression cases)
+    add(0, 309, True, "G7:finding")
+    add(U64, 309, True, "G7:finding")
+    add(0, -5, True, "G7:finding")
+    if F.name == "f64":
+        add(1022950655902796055, 290, True, "G7:F1")
+        add(1, 0, True, "G7:F1")
+        add(1399895427754828214, -319, True, "G7:F1")
+    else:
+        add(1037040465037118063, 20, True, "G7:F1")
+    for _ in range(400 if q else 20000):
+        w = rng.getrandbits(rng.choice([64, 64, 63, 60, 54, 30]))
+        qq = rng.randrange(F.p10_lo - 3, F.p10_hi + 4)
+        add(w, qq, rng.random() < 0.5, "G3:random")
+    # small w near ties inside the tie window
+    for qq in range(F.tie_lo - 1, F.tie_hi + 2):
+        for _ in range(2 if q else 30):
+            mm = rng.getrandbits(F.p) | 1 | (1 << (F.p - 1))
+            # w * 10^qq = (2 mm + 1) * 2^t
+            if qq >= 0:
+                v = (2 * mm + 1)
+                if v % (5 ** qq) == 0:
+                    add(v // 5 ** qq, qq, False, "G3:window")
+                add((2 * mm + 1) << rng.randrange(0, 8), qq, False, "G3:window")
+            else:
+                w = (2 * mm + 1) * 5 ** (-qq)
+                sh = rng.randrange(0, 4)
+                add(w << sh, qq, False, "G3:window")
+                add((w << sh) + 1, qq, False, "G3:window")
+                add(w << sh, qq, True, "G3:window-trunc")
+    for k, r in enumerate(out):
+        r["id"] = k + 1
+    return out
